@@ -186,7 +186,7 @@ def _is_future_import_first(import_from):
     """
     found_docstring = False
     for stmt in _iter_stmts(import_from.get_root_node()):
-        if stmt.type == 'string' and not found_docstring:
+        if stmt.type in ('string', 'strings') and not found_docstring:
             continue
         found_docstring = True
 
